@@ -31,7 +31,7 @@ ASSUMPTIONS = ["model decoder and exact subgroup membership (vf/model/bls12381.p
 ENGINE = "hypothesis (structure-aware byte mutation) + atheris in the thorough tier"
 TECHNIQUE = ("structure-aware fuzzing: Hypothesis byte mutator and exhaustive length grids, atheris/libFuzzer coverage-guided campaigns in the thorough tier; oracles = totality, model validity predicate, pairing-argument monitor")
 MUTS = ("valid", "truncated", "extended_lead", "extended_trail", "extended_mid", "flags", "second_word_flags", "special_x", "off_curve",
-        "non_subgroup", "small_order", "kG+T", "identity_enc", "random")
+        "non_subgroup", "zero_component", "small_order", "kG+T", "identity_enc", "random")
 _REQ = ([f"pk:{m}" for m in MUTS] + [f"sig:{m}" for m in MUTS] +
         ["entry:KeyValidate", "entry:Verify", "entry:AggregateVerify", "entry:FastAggregateVerify",
          "entry:PopVerify", "pairing_calls_checked", "accepted:honest", "pos:last", "pos:first",
@@ -343,6 +343,15 @@ def mutate(g, base: bytes, mut: str, a: int, b: int, blob: bytes) -> bytes:
     if mut == "non_subgroup":
         pt = bc.torsion_point(g, a % 60) if b % 2 else bc.seed_point(g, a % 60)
         return enc(pt)
+    if mut == "zero_component":
+        if g == "G1":
+            return enc(bc.seed_point("G1", a % 97))
+        cc = 1 + a % 60
+        zc = bc.g2_zero_component(cc)
+        while zc is None:
+            cc += 1
+            zc = bc.g2_zero_component(cc)
+        return enc(zc[0] if b % 2 else BLS.neg("G2", zc[0]))       # y purely real or purely imaginary (non-subgroup)
     if mut == "small_order":
         ell = bc.SMALL_ORDERS[g][b % 2]
         pt = BLS.mul(g, bc.small_point(g, ell, 1 + a % 4), 1 + (a // 4) % (ell - 1))
